@@ -31,7 +31,8 @@ RULE_ADDED = ('Added later: [E] dependent parameters (w a function of the leaf b
               'l_fwd + rtol_bck) without an amplification factor; call-order plane in fresh interpreters. [G0] a tolerance of exactly 0 (rtol = 0.0: purely absolute, atol = 0: purely relative) in '
               'the forward options or only in bck_options. Round 4: '
               "[H] the object's parameter re-assigned between the forward call and the backward pass (gradients and"
-              " the object's state after backward).")
+              " the object's state after backward). Round 7: [I] graph history prior_plain (a plain backward pass with retain"
+              "_graph over the same graph before the recording pass that is judged).")
 ASSUMPTIONS = [
     "tolerance per tensor x: rel * max(|ref_x|_inf, 0.1*G), G = largest reference gradient/state magnitude of the case; "
     "rel = K * exp(2*Lam*T) * max(1, Lam*T) * (E_fwd + E_bck), E = (h*Lam)^p / p! for a fixed-step method of order p "
@@ -222,6 +223,13 @@ def cases(tier, seed):
                     for cot in COTS:
                         for od in (["1", "2"] if quick else ORDERS):
                             add(fam, DEFAULT_REP[fam], m, "inherit", g, "y0+p+w+ts", cot, od, pl, seed)
+    # [I] graph history: a plain backward pass (retain_graph) over the same graph first, then the recording pass that
+    # is judged (every requires-grad subset, both directions, fixed-step and adaptive forward method)
+    for cfg in list(out):
+        if cfg["plane"] == 0 and cfg["order"] == "2" and cfg["family"] == "lin" and cfg["bck"] == "inherit" \
+                and cfg["grid"] in ("inc4", "rag7-dec") and cfg["cot"] in ("dense", "interior") \
+                and cfg["method"] in ("rk4", "rk45") and set(cfg) == set(_case(*["x"] * 8, 0, 0)):
+            out.append(dict(cfg, prior_plain=True))
     return out
 
 
@@ -488,6 +496,10 @@ def _experiment(cfg, v, m):
     order = cfg["order"]
     if not L.requires_grad:
         return {"viol": V("output-does-not-require-grad", {"rg": cfg["rg"]}, stage="forward")}
+    if cfg.get("prior_plain"):
+        o0 = call(torch.autograd.grad, L, [ins[x] for x in names], retain_graph=True, allow_unused=True)
+        if o0.exc is not None:
+            return {"viol": V("exception:%s" % o0.exc_sig, {"message": str(o0.exc)[:300]}, stage="prior-plain-backward")}
     o = call(torch.autograd.grad, L, [ins[x] for x in names], create_graph=(order != "1"), allow_unused=True)
     if o.exc is not None:
         return {"viol": V("exception:%s" % o.exc_sig, {"message": str(o.exc)[:300]},
